@@ -104,6 +104,11 @@ def gen(ctx):
         cases.append(("i.add %s %d" % (hex16(*b), delta), ("add", b, delta)))
         if rng.random() < 0.3:
             cases.append(("i.add %s %d" % (hex16(*a), -delta), ("add", a, -delta)))
+        if rng.random() < 0.12:
+            # instants of two kinds (a DTSTART with milliseconds and a DTEND without, a date and a time): elapsed time all the same
+            c = rand_inst(rng, rng.choice([x for x in ("ms", "sec", "day") if x != k]), max(LO, a[0] - 1), min(HI, a[0] + 1))
+            if normal(c):
+                cases.append(("i.diff %s %s" % (hex16(*a), hex16(*c)), ("diff", a, c)))
     # --- exhaustive day level in thorough: every day of the range, +-1 day and month/year hops
     if thorough:
         o0 = datetime.date(LO, 1, 1).toordinal()
@@ -166,6 +171,10 @@ def gen(ctx):
         except ValueError:
             b = b[:2] + (28,) + b[3:]       # (2100, 2200, 2300 have no leap day)
         cases.append(("i.tstamp %s" % hex16(*b), ("tstamp", b)))
+    # the two conversions on a day as such (recorded difference, class allday-epoch)
+    for _ in range(6):
+        a = rand_inst(rng, "day", 1970, HI)
+        cases.append(("i.toepoch %s" % hex16(*a), ("toepoch_day", a)))
     if thorough:
         for o in range(datetime.date(LO, 1, 1).toordinal(), datetime.date(HI, 12, 31).toordinal() + 1):
             dt = datetime.date.fromordinal(o)
@@ -226,6 +235,12 @@ def spec(chk, ans):
             _, a = chk
             want = (absms(a) - EPOCH_ORD * MSD) // 1000
             return int(ans) == want, "epoch %s, calendar says %d" % (ans, want)
+        if what == "toepoch_day":
+            _, a = chk
+            want = (absms(a) - EPOCH_ORD * MSD) // 1000       # the day's beginning, what the daemon's conversion gives
+            if int(ans) == want + 86400:
+                return "known:allday-epoch", ""
+            return int(ans) == want, "epoch %s of the all-day instant, the day begins at %d" % (ans, want)
         if what == "frepoch":
             _, t = chk
             want = from_abs(EPOCH_ORD * MSD + t * 1000, "sec")
@@ -299,14 +314,23 @@ def run(ctx):
     model = ctx.model(lines)
     fails = []
     hist = {}
+    seen_known = set()
     for i, (l, chk) in enumerate(cases):
         if chk is None:
             continue
         hist[tag(chk)] = hist.get(tag(chk), 0) + 1
         ans = impl[i] if i < len(impl) else "<no answer: %s>" % status
         ok, why = spec(chk, ans)
-        if not ok:
+        if ok == "known:allday-epoch":
+            seen_known.add("allday-epoch")
+        elif not ok:
             fails.append((i, why))
+    for k in common.load_known("C08"):
+        if k.get("status") == "known" and k.get("class") in seen_known:
+            ctx.known(k["what"]); seen_known.discard(k.get("class"))
+    if seen_known and not fails:
+        i0 = next(i for i, (l, c) in enumerate(cases) if c and c[0] == "toepoch_day")
+        fails.append((i0, "the library takes an all-day instant for the end of its day, the daemon for its beginning (not a recorded finding)"))
     corr = common.diff_lines(lines, impl, model)
     ctx.cov.update({
         "evaluations": len(lines),
@@ -316,7 +340,7 @@ def run(ctx):
                 "all-day kinds); pairs either independent or a chosen span apart (1..40000 days plus a random "
                 "intraday part); diff(a,b), add(b, a-b), add(a, b-a); overflowed instants for fixup (day<=245, "
                 "hour<=250, month<=36, ...); ordering pairs (same day / same second / equal / independent); "
-                "epoch conversions 1970-2099 and daemon timestamps 2001-2099; thorough adds every day of the "
+                "epoch conversions 1901-2099 (negative unix times before 1970) and daemon timestamps 1902-2400; thorough adds every day of the "
                 "range.  Every generated case is in the property's domain and counts as non-trivial; distinct = distinct op lines",
         "samples": [lines[i] + "  =>  " + (impl[i] if i < len(impl) else "?") for i in
                     sorted(ctx.rng.sample(range(len(lines)), min(8, len(lines))))],
